@@ -562,8 +562,12 @@ func TestReplay(t *testing.T) {
 			sig, msg = "eng:"+mm.Signature(), mm.Error()
 		}
 	case "crash":
-		if f, _ := drive.RunCrashCase(d.Crash, true, compactionSite); f != nil {
-			sig, msg = "crash:"+f.Sig, f.Msg
+		// the order in which obsolete files are visited depended on map
+		// iteration: re-execute a few times
+		for i := 0; i < 12 && sig == ""; i++ {
+			if f, _ := drive.RunCrashCase(d.Crash, true, compactionSite); f != nil {
+				sig, msg = "crash:"+f.Sig, f.Msg
+			}
 		}
 	default:
 		t.Fatalf("unknown kind %q", d.Kind)
